@@ -63,3 +63,37 @@ func init() {
 	meta("C19", "queued: case i<48 = (capacity i mod 6, closed?, RecvQueuedFull?, receive-only channel type?) with every fill 0..cap and every limit 0..cap+2; timed: case = one scenario (SendTimeout|SendContext senders vs plain receiver / RecvTimeout|RecvContext receivers vs plain producer with optional close / non-positive timeout with a late peer), capacity 0..3, timeouts 50us..2ms; every case is NON-TRIVIAL; distinctness = case parameters")
 	metas["C19"] = Meta{Rule: metas["C19"].Rule, Assumptions: metas["C19"].Assumptions, ExhaustivePart: "RecvQueued/RecvQueuedFull: capacity 0..5 x fill x open/closed x limit 0..cap+2 x channel direction"}
 }
+
+// Families added after the first version of a monitor (seeded-change rounds 2..6);
+// appended to the rule text so that the evidence says what the cases contain now.
+func init() {
+	ext := map[string]string{
+		"C01": "prebuilt trees up to 2600 values in extreme shapes; observation every 1..6 calls; slices returned by Slice* overwritten by the caller; nested read-only calls inside walker callbacks; big trees emptied by Remove calls and reused",
+		"C02": "duplicates-only family judged existentially over all consistent shapes; quick sizes up to 5000; one sparsest-shape tree of height 26 (317 810 values) per run with insertions and deletions along paths of more than 24 nodes",
+		"C03": "universes up to thousands of members; random observation order and subsets; Slice results overwritten; constructors from map[T]struct{} and nil maps with the source modified afterwards; nested read-only calls inside Range callbacks; drain by Remove and reuse",
+		"C04": "seq: Range callbacks that call the map (Load, nested Range, mutating calls), and histories over 1100..3000 keys in scripted phases",
+		"C06": "orphan regime after Init; Move/Unlink counts up to 700 and whole laps; Link(nil); nested calls inside Do callbacks; one list and one ring of 1100..2600 elements (every 100th case)",
+		"C07": "inputs up to 3000 values, structured (sorted prefix, sorted, reversed); front-removal bursts, complete drains and reuse; streaks of 1300+ Adds; 96-byte and float64 elements; positions MaxInt/MinInt",
+		"C08": "shapes up to 150x150; extreme and 2^64-wrapping coordinates; jagged inputs that are exact rectangles, overwritten after construction; the cell model over [20]int64, string, uint8 and record elements",
+		"C09": "tierb: a quarter of the cases are clear-reuse schedules (concurrent ClearKey of free keys next to first uses of new keys, then sequential reuse of every cleared key)",
+		"C10": "stable: 17..140 subscribers in 1 of 12 scenarios; subscribers that are not received from under Pub/PubSlice without timeout (logical starvation verdict); endings by one Unsub per subscriber with one more event published half way",
+		"C11": "big histories of 200..3000 pairs with a shrink-then-evicting-Add phase; nested read-only calls inside Range callbacks",
+		"C12": "a third of the random cases use other element types (0..320 bytes) with nil/empty/zero-capacity receivers and round or big Grow amounts; every 100th uses 65 536..140 000 elements",
+		"C13": "sizes near MaxInt; one input of ~70 000 elements per run, re-checked under GOMAXPROCS 1/2/3/NumCPU/2+1/2*NumCPU; zero-size-element slices of 2^53+1..MaxInt elements; 160-byte elements; callbacks that call the helpers themselves",
+		"C14": "alphabets up to 64 values; NaN map keys; spare capacity on inputs; extreme indices; callbacks that use the helpers themselves; float group keys with +0.0/-0.0",
+		"C15": "nearly sorted inputs, McIlroy killer-adversary inputs, small ordered types, the four Func sorts over 4/16/176/336-byte and pointer elements, inputs of 8192..20001 values in block shapes (every 25th case), BinarySearchFunc over up to MaxInt zero-size elements",
+		"C16": "histories up to 3000 calls and deep phases of 1000..6000 values; every 10th case repeats the model over [40]int64/struct{}/string/*int/uint8 elements; 20 cases per quick run push 700 000..1 000 000 calls through one queue and one stack; thorough: mode marathon = 2^32+2^22 values through ONE queue and ONE stack",
+		"C17": "staggered arrivals and spin-barrier starts; first actions that panic or call Goexit, also while other callers are blocked inside Do; last results of type error (nil and non-nil), *int, int, string, bool; chains of 1100..2600 nested Once values",
+		"C18": "reg: a quarter of the rounds over the universe {1,2,3}; CAS-only counter rounds; every 100th case = ALL call sequences of length <= 4 over an 11-call alphabet on a fresh register of each representation; pool: every 40th case = 150 000..300 000 calls on ONE pool",
+		"C19": "queued: capacities 64..300 and limits up to MaxInt; timed: concurrent queued consumers, never-cancellable contexts, close while waiting, bounded join (60 s) of scenarios whose every timeout is <= 2 ms",
+		"C20": "variadic lists of 0..8 and 9..40 arguments over float64/float32/int16/uint64(odd)/complex128 incl. 0, -0, +-Inf; types with IsZero methods as value, pointer and interface type arguments; typed nils",
+	}
+	for prop, text := range ext {
+		m := MetaOf(prop)
+		m.Rule += " || added later: " + text
+		metas[prop] = m
+	}
+	m := metas["C18"]
+	m.ExhaustivePart = "all sequences of <= 4 calls over {Load, Store(0|1|2), Swap(0|1), CAS(0,1), CAS(1,0), CAS(1,2), CAS(2,2), CAS(0,0)} on a fresh AtomicValue of each of 3 representations (sequential)"
+	metas["C18"] = m
+}
